@@ -26,8 +26,26 @@ func NewChannelMgr(cfg *Config, defaultTimeShiftBufferDepthS, defaultReceiveNrRa
 	}
 }
 
+// AddChannel adds a new channel, replacing any channel with the same name.
 func (cm *ChannelMgr) AddChannel(ctx context.Context, chName, chDir string) {
 	cm.mu.Lock()
+	defer cm.mu.Unlock()
+	cm.addChannel(ctx, chName, chDir)
+}
+
+// GetOrAddChannel returns the channel with the given name, creating it if needed.
+// Lookup and creation are one step, so that concurrent first uploads get the same channel.
+func (cm *ChannelMgr) GetOrAddChannel(ctx context.Context, chName, chDir string) (ch *channel, created bool) {
+	cm.mu.Lock()
+	defer cm.mu.Unlock()
+	if ch, ok := cm.channels[chName]; ok {
+		return ch, false
+	}
+	return cm.addChannel(ctx, chName, chDir), true
+}
+
+// addChannel creates and registers a channel. The lock must be held.
+func (cm *ChannelMgr) addChannel(ctx context.Context, chName, chDir string) *channel {
 
 	chCfg := ChannelConfig{
 		Name:                 chName,
@@ -50,8 +68,9 @@ func (cm *ChannelMgr) AddChannel(ctx context.Context, chName, chDir string) {
 	if chCfg.TimeShiftBufferDepthS == 0 {
 		chCfg.TimeShiftBufferDepthS = cm.defaultTimeShiftBufferDepthS
 	}
-	cm.channels[chName] = newChannel(ctx, chCfg, chDir)
-	cm.mu.Unlock()
+	ch := newChannel(ctx, chCfg, chDir)
+	cm.channels[chName] = ch
+	return ch
 }
 
 func (cm *ChannelMgr) GetChannel(chName string) (*channel, bool) {
